@@ -1,4 +1,5 @@
 //! agv: runtime-monitoring harness for the 20 given properties of alpha-g (see /verif/DESIGN.md).
+pub mod calib;
 pub mod cb;
 pub mod core;
 pub mod enc;
